@@ -4,7 +4,8 @@
 From Coq Require Import String PrimFloat Permutation Sorted.
 From PV Require Import Lib.Common Lib.FloatK Lib.C16_Spec Model.C16_Store Model.C16_Heap Model.C16_Codec Gen.C16_Fields
                        Gen.C16_Kernel Model.C16_Kernel Model.C16_Maps Proofs.C16_Maps
-                       Proofs.C16_Utf8 Proofs.C16_Store Proofs.C16_Nested Proofs.C16_Tables Proofs.C16_Heap Proofs.C16_Alias Proofs.C16_Codec Proofs.C16_Kernel.
+                       Proofs.C16_Utf8 Proofs.C16_Store Proofs.C16_Nested Proofs.C16_Tables Proofs.C16_Heap Proofs.C16_Alias Proofs.C16_Codec Proofs.C16_Kernel
+                       Model.C16_Multi Proofs.C16_Frame.
 Local Open Scope Z_scope.
 
 (** ** labels: every string of unicode scalar values survives the UTF-8 storage of HDF5 (non-ASCII labels included) *)
@@ -368,6 +369,59 @@ Print Assumptions C16_copy_toplevel_fresh.
 Theorem C16_copy_fresh_not_shared : forall n v w, hv_lt n v -> hv_ge n w -> same_ref v w = false.
 Proof. exact fresh_not_same. Qed.
 Print Assumptions C16_copy_fresh_not_shared.
+
+(** ** several objects in ONE file (Model/C16_Multi.v).  A write under group g leaves every path outside g untouched: for every
+    version of the writer, class table, prior file content, group name, object (well-formed or not), overwrite flag, and whether or
+    not the write succeeds, a path that does not lie below g keeps its node; the only thing that can appear outside g is an empty
+    group on the way down to g (h5py creates the missing ancestors of a dataset) *)
+Theorem C16_write_frame : forall fx s f g o ow f' e, to_hdf5 fx s f g o ow = (f', e) ->
+  forall q, is_prefix (group_path g) q = false ->
+    lookup q f' = lookup q f \/ (lookup q f = None /\ lookup q f' = Some NGroup /\ is_prefix q (group_path g) = true).
+Proof. exact to_hdf5_frame. Qed.
+Print Assumptions C16_write_frame.
+(** in particular the datasets outside g are exactly those that were there, with their content *)
+Theorem C16_write_frame_datasets : forall fx s f g o ow f' e, to_hdf5 fx s f g o ow = (f', e) ->
+  forall q d, is_prefix (group_path g) q = false -> (lookup q f' = Some (NData d) <-> lookup q f = Some (NData d)).
+Proof. exact to_hdf5_outside_data. Qed.
+Print Assumptions C16_write_frame_datasets.
+(** and through a whole interleaved history of writes (any classes, groups, flags) for a path outside every group written *)
+Theorem C16_write_history_frame : forall steps f q d,
+  Forall (fun st => is_prefix (group_path (snd (fst (fst st)))) q = false) steps ->
+  (lookup q (write_seq f steps) = Some (NData d) <-> lookup q f = Some (NData d)).
+Proof. exact write_seq_outside_data. Qed.
+Print Assumptions C16_write_history_frame.
+(** the object stored under another group (neither group path a prefix of the other: 'a/b' and 'a/bc', 'x' and 'a/b/c') reads back
+    exactly as it did before the write — every class on either side, dictionary-valued attributes included *)
+Theorem C16_other_objects_survive : forall fx s f g o ow f' e, to_hdf5 fx s f g o ow = (f', e) ->
+  forall s' nt s0, apart (group_path g) (split_path s0) -> from_hdf5 s' nt f' (Some s0) = from_hdf5 s' nt f (Some s0).
+Proof. exact other_objects_survive. Qed.
+Print Assumptions C16_other_objects_survive.
+(** the file-open expression of the CURRENT source (Gen/C16_Kernel.v [k_h5_open_mode], one row per to_hdf5): there is a row for each
+    of the 12 persistable classes and its mode is 'a' whatever [overwrite] is; so handing a file over by name (str / Path) is
+    handing over its content - nothing is truncated - and the two theorems above hold for both ways of handing the file over *)
+Theorem C16_kernel_open_mode :
+  map fst k_h5_open_mode = map cname persistable
+  /\ forallb (fun r => String.eqb (snd r true) "a" && String.eqb (snd r false) "a") k_h5_open_mode = true
+  /\ (forall s, In s persistable -> forall ex f g o ow, to_hdf5_named s ex f g o ow = to_hdf5 VCur s f g o ow).
+Proof. split; [exact (proj1 open_mode_rows)|]. split; [exact (proj2 open_mode_rows) | exact to_hdf5_named_is_append]. Qed.
+Print Assumptions C16_kernel_open_mode.
+Theorem C16_kernel_other_objects_survive : forall s, In s persistable ->
+  forall by_name ex f g o ow f' e, to_hdf5_any by_name s ex f g o ow = (f', e) ->
+  forall s' nt s0, apart (group_path g) (split_path s0) -> from_hdf5 s' nt f' (Some s0) = from_hdf5 s' nt f (Some s0).
+Proof. exact other_objects_survive_any. Qed.
+Print Assumptions C16_kernel_other_objects_survive.
+(** non-vacuity: sibling-prefix and unrelated group paths are apart; a model written to 'm' of a file that holds a genotype matrix
+    under 'a/b' succeeds; and what the theorem excludes does happen with another mode: truncation ('w') loses a dataset outside the group *)
+Example C16_multi_hyps_satisfiable :
+  (apart (split_path (zs "a/b")) (split_path (zs "a/bc")) /\ apart (split_path (zs "x")) (split_path (zs "a/b/c")))
+  /\ (exists f1 f2, to_hdf5 VCur spec_GM [] (Some (zs "a/b")) w_rich true = (f1, None)
+                    /\ to_hdf5_any true spec_ALGM true f1 (Some [109]) (w_model w_hyper) true = (f2, None)
+                    /\ apart (group_path (Some [109])) (split_path (zs "a/b")) /\ is_nil f1 = false)
+  /\ (exists f q d, lookup q f = Some (NData d) /\ is_prefix [[98]] q = false /\ open_named "w" true f = Some [] /\ lookup q [] = None).
+Proof.
+  split; [exact apart_siblings|]. split; [|exact truncate_loses].
+  eexists; eexists. split; [vm_compute; reflexivity|]. split; [vm_compute; reflexivity|]. repeat split.
+Qed.
 
 (** non-vacuity: concrete objects meet the hypotheses; the write succeeds; a variance matrix with sorted labels does round-trip *)
 Example C16_hyps_satisfiable :
